@@ -9,18 +9,21 @@
 (* "invalidate leaves the generation alone when nothing is cached" the facts  *)
 (* NoticeSuffices / NotifiedNeverOutdated fail (first tools/list answered     *)
 (* before a change, delivered after its notification).                        *)
-(* Histories of at most RaceLen steps in which something falls inside a       *)
-(* listing and after which the client is Informed (and every such history of  *)
-(* at most DriftLen steps, informed or not) are exported: the Go harness      *)
-(* plays them on the real client and server (c12.py crosses them with         *)
-(* HeaderMirror!RaceRows).                                                    *)
+(* Histories in which something falls inside a listing are exported when the  *)
+(* client is Informed after them (at most RaceLen steps), when it is informed *)
+(* by notice (at most NoticeLen steps) and in any case up to DriftLen steps:  *)
+(* the Go harness plays them on the real client and server (c12.py crosses    *)
+(* them with HeaderMirror!RaceRows).                                          *)
 EXTENDS HeaderMirrorDefs, Json, SequencesExt
-CONSTANTS MaxLen, RaceLen, DriftLen
+CONSTANTS MaxLen, RaceLen, NoticeLen, DriftLen
 VARIABLES cfg, steps, st
 vars == <<cfg, steps, st>>
 True == TRUE
+\* the configurations explored (the what-if run looks at subscribed clients only: the others get no notification)
+CfgSet == Cfgs
+SubCfgs == {g \in Cfgs : g.sub}
 
-HInit == cfg \in Cfgs /\ steps = << >> /\ st = St0
+HInit == cfg \in CfgSet /\ steps = << >> /\ st = St0
 HStep(s) == /\ Len(steps) < MaxLen
             /\ s \in Enabled(cfg, st)
             /\ steps' = Append(steps, s)
@@ -49,6 +52,7 @@ RacyNow == \/ \E i \in 2..Len(steps) : steps[i] \in {"answer", "deliver"} /\ ste
 Exported == /\ RacyNow /\ NoIdleWait
             /\ \/ Len(steps) <= DriftLen
                \/ (Len(steps) <= RaceLen /\ InformedSt(st))
+               \/ (Len(steps) <= NoticeLen /\ ByNoticeSt(st))
 HistInfoSt == [hist |-> Hist, informed |-> InformedSt(st), bynotice |-> ByNoticeSt(st), racy |-> TRUE,
                kinds |-> SetToSeq(DefKindsSt(st)), src |-> Source(Hist), named |-> FALSE]
 Export == IF Exported THEN PrintT(ToJson([racehist |-> HistInfoSt])) ELSE TRUE
